@@ -96,6 +96,8 @@ def run(ctx):
             n = len(e["boot"]) + len(e["upd"]) + len(e["fin"]) + len(e["opt"]) + len(e["hs"])
             st["reads"] += n
             ctx.evaluations += n
+        elif ev == "api":
+            st["api_answers"] = st.get("api_answers", 0) + sum(1 for k in ("boot", "fin", "opt") for r in e[k] if r != [0]) + sum(1 for u in e["upd"] if u["api"] != [0])
     ctx.cov["reached"] = st
     viol, r = vlib.judge(ctx, "Trace_BeaconNet", "Trace_BeaconNet.cfg", out, timeout=3000)
     ctx.states += r.distinct
@@ -112,7 +114,7 @@ def run(ctx):
     if not ctx.violations and not ctx.replay:
         need = {"update", "bootstrap", "optimistic", "summaries"}
         refused_kinds = {k.split(":")[0] for k in st["refused_by"]}
-        if (st["generated_replayed"] == 0 or not need <= set(st["accepted"]) or st["batches_ok"] == 0 or st["restarts"] == 0
+        if (st["generated_replayed"] == 0 or not need <= set(st["accepted"]) or st["batches_ok"] == 0 or st["restarts"] == 0 or st.get("api_answers", 0) == 0
                 or st["refused_after_stored"] == 0 or not {"update", "bootstrap", "finality", "optimistic", "summaries", "unknown", "emptykey"} <= refused_kinds):
             raise NoVerdict("vacuity guard: %s" % st)
     ctx.cov["rule"] = ("a run = one sequence of batches handed to the real beacon.Network.validateContents; evaluations = verdicts + single reads of the "
